@@ -1,6 +1,8 @@
 // Harness driver, group "text" (property C19): the real operator<< / operator>> of Vector, Stokes,
 // Estimate, Matrix, Jones, Quaternion and the Signal conventions through std::stringstream at
 // precision 17.  Text travels hex-encoded ("_" = empty); doubles as 16-hex-digit bit patterns.
+#include <thread>
+#include <cstdlib>
 #include <cstring>
 #include <cstdio>
 #include <cmath>
@@ -66,10 +68,9 @@ template<typename T> std::string vec_in_n (unsigned n, const std::string& text)
 { switch (n) { case 1: return vec_in<1,T> (text); case 2: return vec_in<2,T> (text); case 3: return vec_in<3,T> (text); case 4: return vec_in<4,T> (text); case 5: return vec_in<5,T> (text); }
   throw std::runtime_error ("protocol:N"); }
 
-int main ()
+static void process (const std::string& line)
 {
-  std::string line;
-  while (std::getline (std::cin, line)) {
+  do {
     Toks a; { std::istringstream is (line); std::string x; while (is >> x) a.t.push_back (x); }
     if (a.t.empty()) { std::cout << "err empty\n"; continue; }
     const std::string op = a.t[0]; std::string o;
@@ -147,6 +148,16 @@ int main ()
       std::cout << "ok" << o << "\n";
     }
     catch (std::exception& e) { std::cout << "err throw:" << e.what() << "\n"; }
+  } while (false);
+}
+
+int main ()
+{
+  const bool threaded = getenv ("EPSIC_HARNESS_THREAD") != 0;   // thread mode (the runner's thread pass): every line on a thread of its own
+  std::string line;
+  while (std::getline (std::cin, line)) {
+    if (threaded) { std::thread th ([&]() { process (line); }); th.join (); }
+    else process (line);
   }
   return 0;
 }
